@@ -481,6 +481,8 @@ def leaf_points(node: Node):
         m = float(node.obj.max_val)
         pts += [m, -m, math.tanh(m), -math.tanh(m), 1.0, -1.0]
     pts += [0.0]
+    if k not in ("Exp",):  # large magnitudes where the map does not overflow
+        pts += [1e3, -1e3]
     out = []
     for v in pts:
         v = float(FDT(v))
